@@ -133,10 +133,8 @@ namespace detail
 	{
 		if(x == 0)
 			return 0.0f;
-		else if(x == ((1 << 11) - 1))
-			return ~0;//NaN
-		else if(x == (0x1f << 6))
-			return ~0;//Inf
+		else if((x & (0x1f << 6)) == (0x1f << 6)) // exponent all ones: Inf (mantissa == 0) or NaN
+			return (x & 0x3f) != 0 ? std::numeric_limits<float>::quiet_NaN() : std::numeric_limits<float>::infinity();
 
 		uint Result = packed11ToFloat(x);
 
@@ -163,10 +161,8 @@ namespace detail
 	{
 		if(x == 0)
 			return 0.0f;
-		else if(x == ((1 << 10) - 1))
-			return ~0;//NaN
-		else if(x == (0x1f << 5))
-			return ~0;//Inf
+		else if((x & (0x1f << 5)) == (0x1f << 5)) // exponent all ones: Inf (mantissa == 0) or NaN
+			return (x & 0x1f) != 0 ? std::numeric_limits<float>::quiet_NaN() : std::numeric_limits<float>::infinity();
 
 		uint Result = packed10ToFloat(x);
 
